@@ -11,6 +11,9 @@ CHECKS = {
  "C05": ("explicit-state BFS to fixpoint (stateright) over (real iterator bytes, reference cursor) states with the real object rebuilt by history replay; dev and release profiles",
          "All reachable states of the real derived iterator under the stated action alphabet (next, next_back, nth/nth_back with small, huge and near-usize::MAX n, clone with two live iterators) are visited for every enum of the program space, each transition compared with core::ops::Range as reference, in both overflow-checking and wrapping builds; verdict holds for histories of any length over the alphabet.",
          "trusted: rustc, core::ops::Range, stateright BFS, raw-byte state key (two usize, no padding; guarded by size_of) ; n is drawn from representatives of usize", "DESIGN.md §4 C05"),
+ "C06": ("bounded-exhaustive program-space enumeration x complete 8/16-bit input domain sweep (boundary set for wider reprs) on rustc-compiled derive output against rustc's discriminant rule",
+         "For every enum of the bounded program space (all disabled subsets x <=k deviations of repr/discriminant/kind) from_repr is called with EVERY value of an 8/16-bit repr type (boundary values for wider types) and compared with the reference discriminant table, which is itself cross-checked against `v as R` / the enum tag for each program.",
+         "trusted: rustc casts and repr(int) tag layout, derived Debug, vf-core R-disc; wider-than-16-bit reprs probed at boundaries only", "DESIGN.md §4 C06"),
 }
 PENDING = {}
 
